@@ -27,7 +27,7 @@ Proof.
   intros o h w. induction imgs as [|[[[r0 c0] f0] i0] imgs IH]; intros s Hs Hall.
   - unfold pass3, imgs_paints. simpl. split; [exact Hs|]. split; [reflexivity|].
     intros i r c. split; [intros H; left; exact H|]. intros [H|[f []]]. exact H.
-  - unfold pass3, imgs_paints in *. cbn [flat_map]. rewrite exec_list_app.
+  - unfold pass3, imgs_paints in *. cbn [flat_map]. rewrite exec_list_app, image_cmds_paint_image.
     destruct (Hall r0 c0 f0 i0 (or_introl eq_refl)) as (Hr & Hc & Hw).
     destruct (exec_paint_image o h w r0 c0 f0 i0 s Hs Hr Hc Hw) as (Hs1 & Hg1 & Hp1).
     set (s1 := exec_list o s (paint_image o r0 c0 f0 i0)) in *.
